@@ -165,6 +165,14 @@ def apply_list_method(lst, method, args):
         raise ValueError(method)
 
 
+ITERABLES = {0: "list", 1: "generator", 2: "map", 3: "iterator"}
+
+
+def as_iterable(objs, flavour):
+    """the same elements as a list or as an iterable that can be read only once"""
+    return objs if flavour == 0 else (x for x in objs) if flavour == 1 else map(lambda x: x, objs) if flavour == 2 else iter(tuple(objs))
+
+
 def real_list_method(live, lst, method, args, owner, attr):
     o = live.obj
     if method == "append":
@@ -172,10 +180,11 @@ def real_list_method(live, lst, method, args, owner, attr):
     elif method == "insert":
         lst.insert(args[0], o(args[1]))
     elif method == "extend":
-        lst.extend([o(x) for x in args[0]])
+        # a list, or any other iterable a Python list accepts: a generator, `map`, an iterator (readable once)
+        lst.extend(as_iterable([o(x) for x in args[0]], args[1] if len(args) > 1 else 0))
     elif method == "iadd":
         new = getattr(owner, attr)
-        new += [o(x) for x in args[0]]
+        new += as_iterable([o(x) for x in args[0]], args[1] if len(args) > 1 else 0)
         setattr(owner, attr, new)          # what `owner.attr += [...]` does
     elif method == "imul":
         new = getattr(owner, attr)
@@ -324,7 +333,9 @@ def gen_link_edit(rng, spec):
     if m == "insert" and fresh:
         return {"op": "listop", "kind": kind, "name": name, "attr": attr, "method": "insert", "args": [rng.randint(0, len(cur)), rng.choice(fresh)]}
     if m in ("extend", "iadd") and fresh:
-        return {"op": "listop", "kind": kind, "name": name, "attr": attr, "method": m, "args": [[rng.choice(fresh)]]}
+        # `extend` also with an iterable that can be read only once (a generator, `map`, an iterator)
+        return {"op": "listop", "kind": kind, "name": name, "attr": attr, "method": m,
+                "args": [[rng.choice(fresh)], rng.choice([0, 0, 1, 2, 3]) if m == "extend" else 0]}
     if m == "pop" and len(cur) > 1:
         return {"op": "listop", "kind": kind, "name": name, "attr": attr, "method": "pop", "args": [rng.randrange(len(cur))]}
     if m == "delitem" and len(cur) > 1:
